@@ -40,7 +40,7 @@ func ruleR45(c *Ctx) {
 			props = append(props, "C09")
 		}
 		for _, mn := range []string{"Search", "Delete"} {
-			u := m.effectiveMethod(tk, mn)
+			u := m.algorithmUnit(tk, mn)
 			if u == nil {
 				continue
 			}
